@@ -24,7 +24,7 @@ def haar(rng, n: int) -> np.ndarray:
 def pick_unit(rng, boundary_p: float = 0.25) -> float:
     """A value in [0,1], often a boundary value."""
     if rng.random() < boundary_p:
-        v = rng.choice([0.0, 1.0, TINY, 1 - 1e-9, 0.5, 1e-5, 1 - 1e-5])
+        v = rng.choice([0.0, 1.0, TINY, 1 - 1e-9, 0.5, 1e-5, 1 - 1e-5, 1 - 1e-13, float(np.nextafter(1.0, 0.0)), 1e-16])
         if v in (0.0, 1.0) and rng.random() < 0.5:
             return int(v)                       # Python ints are legal values too
         return float(v)
